@@ -3,7 +3,8 @@ import importlib.util
 import itertools
 import random
 
-_spec = importlib.util.spec_from_file_location("gen_commands_tla", "/verif/bin/gen_commands_tla.py")
+import os
+_spec = importlib.util.spec_from_file_location("gen_commands_tla", os.path.join(os.path.dirname(os.path.dirname(os.path.abspath(__file__))), "bin", "gen_commands_tla.py"))
 _mod = importlib.util.module_from_spec(_spec)
 _spec.loader.exec_module(_mod)
 TABLE = _mod.TABLE
